@@ -37,6 +37,34 @@ func (c *FnCtx) allocRef(comment string) string {
 	// fresh refs are not slice-element addresses of pre-existing regions and are unknown to region functions
 	facts = append(facts, "(< (elt_r "+n+") 0)")
 	c.define(and(facts...))
+	// nothing stored in the heap at this point refers to the fresh object
+	for _, name := range heapNamesSorted(c.heap) {
+		ty := c.heapTy[name]
+		if ty == nil {
+			continue
+		}
+		cur := c.heap[name]
+		var ref func(v string) string
+		switch u := ty.Underlying().(type) {
+		case *types.Slice:
+			ref = func(v string) string { return "(s_reg " + v + ")" }
+		case *types.Pointer, *types.Map:
+			ref = func(v string) string { return v }
+		case *types.Basic:
+			if u.Info()&types.IsString == 0 {
+				continue
+			}
+			continue
+		default:
+			continue
+		}
+		if strings.HasPrefix(strings.Trim(name, "|"), "Elems ") {
+			I := c.mode.idxSort()
+			c.define("(forall ((x Int) (i " + I + ")) (! (not (= " + ref("(select (select "+cur+" x) i)") + " " + n + ")) :pattern ((select (select " + cur + " x) i))))")
+		} else if strings.HasPrefix(strings.Trim(name, "|"), "H ") || strings.HasPrefix(strings.Trim(name, "|"), "Cell ") {
+			c.define("(forall ((x Int)) (! (not (= " + ref("(select "+cur+" x)") + " " + n + ")) :pattern ((select " + cur + " x))))")
+		}
+	}
 	c.allocs = append(c.allocs, n)
 	return n
 }
@@ -223,7 +251,7 @@ func (c *FnCtx) zeroRegion(r string, et types.Type) {
 		return
 	}
 	name := c.elemsHeap(et)
-	c.setHeap(name, sto(c.heap[name], r, "((as const (Array "+c.mode.idxSort()+" "+c.sortOf(et)+")) "+c.zero(et)+")"))
+	c.setRegion(name, r, "((as const (Array "+c.mode.idxSort()+" "+c.sortOf(et)+")) "+c.zero(et)+")")
 }
 
 func (c *FnCtx) stringToBytes(in *ssa.Convert) {
@@ -235,7 +263,7 @@ func (c *FnCtx) stringToBytes(in *ssa.Convert) {
 	name := c.elemsHeap(types.Typ[types.Uint8])
 	arr := c.fresh("bytesof", "(Array "+I+" "+c.byteSort()+")")
 	c.define("(forall ((i " + I + ")) (! (=> (and " + c.idxLe(z, "i") + " " + c.idxLt("i", "(s_len "+x.T+")") + ") (= (select " + arr + " i) (sbyte " + x.T + " i))) :pattern ((select " + arr + " i))))")
-	c.setHeap(name, sto(c.heap[name], r, arr))
+	c.setRegion(name, r, arr)
 	c.setVal(in, Val{T: "(mk_slice " + r + " " + z + " (s_len " + x.T + ") (s_len " + x.T + "))", Ty: in.Type()})
 }
 
